@@ -467,6 +467,8 @@ class Engine:
 
     def assign_target(self, st, tgt, val, node):
         if isinstance(tgt, ast.Name):
+            if self.hooks and hasattr(self.hooks, 'on_assign') and isinstance(node, (ast.Assign, ast.AugAssign)):
+                self.hooks.on_assign(self, st, tgt, val, node)       # site contracts on the value a local is (re)bound to
             ut = self.c.get('unpack_types', {}).get(tgt.id)
             if ut == 'real' and isinstance(val, Obj):
                 val = Num(self.uf('as_real', V, R)(val.t), npy=True, taint=val.taint, ghost=val.ghost)
